@@ -80,7 +80,7 @@ def discharge(I, name_prefix, case, timeout_ms=20000, inputs=None, replay_fn=Non
         hyps = I.hyps[:ob.nhyps] + list(ob.extra)
         t0 = time.time()
         if ob.kind == 'cover':
-            st, model, dt, be = solve.check_sat(hyps + [ob.goal], timeout_ms, False)
+            st, model, dt, be = solve.cover_sat(hyps + [ob.goal], timeout_ms)
             res.append({'name': name_prefix + ob.name, 'case': case, 'kind': 'cover', 'verdict': st, 'secs': dt,
                         'backend': be})
             continue
